@@ -1,5 +1,6 @@
 (* C19 — Equality, ordering and hashing are structural and mutually consistent.
-   Statements only; every proof is `exact <lemma>` (Proofs/EqOrdProofs.v, EqOrdCmpProofs.v, EqOrdDescProofs.v).
+   Statements only; every proof is `exact <lemma>` (Proofs/EqOrdProofs.v, EqOrdCmpProofs.v, EqOrdDescProofs.v,
+   EqOrdPolProofs.v, EqOrdHashProofs.v).
 
    Model (Ms/EqOrdModel.v; /repo as of 32d9f676): `preorder` = what Terminal::pre_order_iter yields
    (discriminant, number of children, payload), `eq_iter` = the truncating zip with the per-pair rules of
